@@ -78,7 +78,7 @@ CONTROL = "tab\there \x1b[31mred\x1b[0m \x01 \x7f \u2028 ls \x0c ff \x0b vt \u00
 # ------------------------------------------------------------------------------------------------
 
 class Prog(object):
-    def __init__(self, pid, family, files, args, attr=None, only=None, token=None):
+    def __init__(self, pid, family, files, args, attr=None, only=None, token=None, expect=None):
         self.pid = pid                # unique id
         self.family = family
         self.files = files            # list of (relative path, bytes)
@@ -86,6 +86,7 @@ class Prog(object):
         self.attr = attr              # index into files: build the `[[allow(L)]] module M` variant of that file
         self.only = only              # None = all combinations; else list of (fmt, disable, allow) to run
         self.token = token            # extra token for the case text (known findings)
+        self.expect = expect          # by construction: {"codes": {code: count}} of the run without -A, {"file_order": [names]}
 
     def has_esc(self):
         return any(b"\x1b" in c or "\x1b" in n for n, c in self.files) or any("\x1b" in a for a in self.args)
@@ -271,6 +272,22 @@ def curated_programs():
     add("mix-dup", "mix", [("a.slice", _file([b_dep, b_mal, b_tag])), ("b.slice", _file([b_link, b_enum_vals, b_param_struct], k0=10))],
         ["a.slice", "b.slice", "a.slice"], attr=1)
     add("mix-syntax-lint", "mix", [("a.slice", _file([b_mal, b_mal_tag, b_syntax]))], ["a.slice", "a.slice"])
+    # --- volume and order: programs whose diagnostics are known by construction (g)
+    many = b"module M\n[deprecated] struct Old {}\nstruct Big {\n" + b"".join(b"    f%d: Old\n" % i for i in range(150)) + b"}\n"
+    add("volume-150-warnings", "volume", [("many.slice", many)], expect={"codes": {"Deprecated": 150}}, only=[("json", True, []), ("human", True, []), ("json", True, ["Deprecated"])])
+    add("volume-150-warnings-then-error", "volume", [("many.slice", many + b"enum Empty : uint8 {}\n")],
+        expect={"codes": {"Deprecated": 150, "E008": 1}}, only=[("json", True, []), ("human", True, []), ("json", True, ["Deprecated"]), ("human", True, ["All"])])
+    add("volume-130-errors", "volume", [("errs.slice", b"module M\nstruct S {\n" + b"".join(b"    tag(-1) f%d: int32\n" % i for i in range(130)) + b"}\n")],
+        expect={"min_total": 130}, only=[("json", True, []), ("human", True, [])])
+    mal = lambda n, k0: b"module M\n" + b"".join(b"/// See {@linked X%d}.\nstruct W%d {}\n" % (k0 + i, k0 + i) for i in range(n))
+    add("order-1-then-2", "order", [("a.slice", mal(1, 0)), ("b.slice", mal(2, 10))], expect={"codes": {"MalformedDocComment": 3}, "file_order": ["a.slice", "b.slice"]})
+    add("order-2-then-1", "order", [("a.slice", mal(2, 0)), ("b.slice", mal(1, 10))], expect={"codes": {"MalformedDocComment": 3}, "file_order": ["a.slice", "b.slice"]})
+    add("order-1-3-2-5", "order", [("a.slice", mal(1, 0)), ("b.slice", mal(3, 10)), ("c.slice", mal(2, 20)), ("d.slice", mal(5, 30))],
+        expect={"codes": {"MalformedDocComment": 11}, "file_order": ["a.slice", "b.slice", "c.slice", "d.slice"]})
+    add("order-0-4-1", "order", [("a.slice", ok), ("b.slice", mal(4, 10)), ("c.slice", mal(1, 20))],
+        expect={"codes": {"MalformedDocComment": 5}, "file_order": ["b.slice", "c.slice"]})
+    add("order-syntax-errors", "order", [("a.slice", b"module M\nstruct {\n"), ("b.slice", mal(3, 10) + b"struct {\n")],
+        expect={"codes": {"MalformedDocComment": 3, "E002": 2}, "file_order": ["a.slice", "b.slice"]})
     # --- known crash D-14a (human format only; JSON is fine)
     d14a = b"module M\r\n/// doc\r\nunchecked enum E : string { A }\r\n"
     add("known-D14a", "known-D14a", [("d14a.slice", d14a)], only=[("human", True, []), ("json", True, [])], token="known-D14a")
@@ -713,6 +730,23 @@ class Checker(object):
                         k = next((i for i in range(min(len(js), len(hp[1]))) if js[i] != hp[1][i]), min(len(js), len(hp[1])))
                         fail("d", hr, "JSON and human format disagree at diagnostic %d: json %r human %r (lengths %d / %d)" % (
                             k, js[k] if k < len(js) else None, hp[1][k] if k < len(hp[1]) else None, len(js), len(hp[1])))
+
+            # ---- (g) what is known by construction: how many diagnostics of which code, files in the order they were given
+            if prog.expect and not allow and jp is not None:
+                got_codes = {}
+                for e in jp[0]:
+                    got_codes[e["code"]] = got_codes.get(e["code"], 0) + 1
+                want_codes = prog.expect.get("codes")
+                if want_codes is not None and got_codes != want_codes:
+                    fail("g", jr, "the program produces %r by construction, but %r were written" % (want_codes, got_codes))
+                if len(jp[0]) < prog.expect.get("min_total", 0):
+                    fail("g", jr, "the program produces at least %d diagnostics by construction, %d were written" % (prog.expect["min_total"], len(jp[0])))
+                order = prog.expect.get("file_order")
+                if order is not None:
+                    seq = [e["loc"][0] for e in jp[0] if e["loc"]]
+                    idx = [order.index(f) if f in order else -1 for f in seq]
+                    if idx != sorted(idx):
+                        fail("g", jr, "diagnostics are not written in the order they were recorded (files %r as given; written: %r)" % (order, seq))
 
             # ---- (e) colours
             for fmt in ("json", "human"):
